@@ -1,4 +1,5 @@
 import Seccomp.Proofs.Lemmas.Closed
+import Seccomp.Proofs.Lemmas.NoUseless
 /-!
 # C06 — the label/jump builder preserves jump targets at any distance
 
@@ -60,6 +61,13 @@ theorem assemble_complete (p : List (Tok L)) (hwf : WFT p) :
   rcases asm_complete p hwf with ⟨s, hs, _⟩ | he
   · exact .inl ⟨s.out, by simp [assemble, hs, Except.map]⟩
   · exact .inr (by simp [assemble, he, Except.map])
+
+/-- **Completeness, strong form.**  If in addition every conditional jump has two *different* labels that
+    are not both placed directly behind it, `Assemble` succeeds — whatever the distances, however many
+    bridges are needed.  (A jump whose two labels coincide, or both mark the very next instruction, is
+    what the resolver calls a "useless jump".) -/
+theorem assemble_total (p : List (Tok L)) (hwf : WFT p) (hj : JifOk p) : ∃ out, assemble p = .ok out :=
+  _root_.assemble_total p hwf hj
 
 /-- What `Assemble` emits is closed: every jump lands inside the list or exactly at its end, so it can
     be followed by more code (the next group) without changing its meaning. -/
